@@ -1514,6 +1514,11 @@ def _abort_flow(
         # Skip the rest for all inactive flows
         return
 
+    if flow_state.status == FlowStatus.STARTING and flow_state.activated > 0:
+        # Avoid restarting an activated flow that failed before it was started
+        # (e.g. because a flow it started failed) since this would end in an infinite loop
+        flow_state.new_instance_started = True
+
     # Abort/deactivate all running child flows
     for child_flow_uid in list(flow_state.child_flow_uids):
         # TODO (cschueller): check why this was the case
